@@ -418,17 +418,27 @@ theorem runRange_spec (passes : Array PassT) (c : Ctx) (lo hi fuel : Nat) (h : W
   unfold runRange at e
   exact runPasses_ind (fun c => WF c.seg) passes _ true lo hi fuel (fun k _ c1 c2 h1 e1 => runPassDir_spec _ c1 fuel true h1 e1) _ (show WF (c.beginRange _).seg from h) e
 
-/-- the bidi step keeps the stream -/
-theorem bidiStep_wf {c : Ctx} (h : WF c.seg) : WF (bidiStep c).seg := by
-  unfold bidiStep
-  split
-  · exact reverse_wf h _
-  · exact h
+/-- a glyph change keeps the stream -/
+theorem wf_setGlyph {s : Seg} (h : WF s) (gadv : Array Int) (i g : Nat) : WF (s.upd i fun sl => sl.setGlyph gadv g) := by
+  obtain ⟨l, hl, hc, ha⟩ := h
+  have ss := StreamSame.upd s i (fun sl => sl.setGlyph gadv g) (fun _ => ⟨rfl, rfl, rfl, rfl⟩)
+  exact ⟨l, hl.same ss, hc.same ss, ha.same ss⟩
+
+/-- the bidi step (reversal and mirroring) keeps the stream -/
+theorem bidiStep_wf {c : Ctx} (h : WF c.seg) (aMirror : Nat := 0) : WF (bidiStep c aMirror).seg :=
+  bidiStep_ind WF aMirror (fun s mark hs => reverse_wf hs mark) (fun gadv s i g hs => wf_setGlyph hs gadv i g) c h
 
 /-- **a call of `Silf::runGraphite`, with the bidi step or without, keeps the stream** -/
-theorem runPhase_spec (passes : Array PassT) (bPass : Nat) (c : Ctx) (lo hi : Nat) (dobidi : Bool) (fuel : Nat) (h : WF c.seg) {c' : Ctx}
-    (e : runPhase passes bPass c lo hi dobidi fuel = .ok (some c')) : WF c'.seg :=
-  runPhase_ind (fun c => WF c.seg) passes bPass lo hi dobidi fuel (fun ar k _ _ c1 c2 h1 e1 => runPassDir_spec _ c1 fuel ar h1 e1)
-    (fun c l h => h) (fun c h => bidiStep_wf h) c h e
+theorem runPhase_spec (passes : Array PassT) (bPass : Nat) (c : Ctx) (lo hi : Nat) (dobidi : Bool) (fuel : Nat) (h : WF c.seg) {aMirror : Nat} {c' : Ctx}
+    (e : runPhase passes bPass c lo hi dobidi fuel aMirror = .ok (some c')) : WF c'.seg :=
+  runPhase_ind (fun c => WF c.seg) passes bPass lo hi dobidi fuel aMirror (fun ar k _ _ c1 c2 h1 e1 => runPassDir_spec _ c1 fuel ar h1 e1)
+    (fun c l h => h) (fun c h => bidiStep_wf h aMirror) c h e
+
+/-- mirroring before the first pass keeps the stream -/
+theorem startMirror_wf (font : Font) {c : Ctx} (h : WF c.seg) : WF (startMirror font c).seg := by
+  unfold startMirror
+  split
+  · exact doMirror_ind WF c font.aMirror (fun s i g hs => wf_setGlyph hs _ i g) h
+  · exact h
 
 end GrVerif.Pass
